@@ -89,6 +89,15 @@ enum Prev {
     TimedOutPark,
     TimedOutSleep,
     TimedOutBlocker,
+    /// cancelled while parked; a destructor on its stack yields during the unwind
+    CancelledYieldingDrop,
+}
+
+struct YieldOnDrop;
+impl Drop for YieldOnDrop {
+    fn drop(&mut self) {
+        coroutine::yield_now();
+    }
 }
 
 /// pool capacity 1, one worker: the fresh coroutine F provably reuses the stack of the previous occupant P
@@ -106,6 +115,12 @@ fn fresh_start(e: &'static Engine, prev: Prev, workers: usize) {
             Prev::CancelledParked => loop {
                 coroutine::park();
             },
+            Prev::CancelledYieldingDrop => {
+                let _g = YieldOnDrop;
+                loop {
+                    coroutine::park();
+                }
+            }
             Prev::CancelledRunnable => loop {
                 coroutine::yield_now();
             },
@@ -117,7 +132,7 @@ fn fresh_start(e: &'static Engine, prev: Prev, workers: usize) {
             }
         }
     });
-    if matches!(prev, Prev::CancelledParked | Prev::CancelledRunnable) {
+    if matches!(prev, Prev::CancelledParked | Prev::CancelledRunnable | Prev::CancelledYieldingDrop) {
         unsafe { p.coroutine().cancel() };
     }
     let _ = p.join();
@@ -161,7 +176,7 @@ pub fn build(quick: bool) -> Vec<Scenario> {
     v.push(Scenario::new("C15", "privacy", "local.privacy.n2.r1.w1", Arc::new(|e| privacy(e, 1, 2, 1))));
     v.push(Scenario::new("C15", "privacy", "local.privacy.n2.r2.w2", Arc::new(|e| privacy(e, 2, 2, 2))));
     v.push(Scenario::new("C15", "privacy", "local.privacy.n3.r1.w2", Arc::new(|e| privacy(e, 2, 3, 1))));
-    for prev in [Prev::Returned, Prev::Panicked, Prev::CancelledParked, Prev::CancelledRunnable, Prev::TimedOutPark, Prev::TimedOutSleep, Prev::TimedOutBlocker] {
+    for prev in [Prev::Returned, Prev::Panicked, Prev::CancelledParked, Prev::CancelledRunnable, Prev::CancelledYieldingDrop, Prev::TimedOutPark, Prev::TimedOutSleep, Prev::TimedOutBlocker] {
         let s = Scenario::new("C15", "fresh_start", format!("fresh.after_{:?}.w1", prev).to_lowercase(), Arc::new(move |e| fresh_start(e, prev, 1)));
         v.push(if matches!(prev, Prev::TimedOutPark | Prev::TimedOutSleep | Prev::TimedOutBlocker) { s.t2() } else { s });
         if !quick {
